@@ -63,6 +63,7 @@ type Obligation struct {
 // FnCtx is the verification context of one function under contract: all
 // obligations, assumptions and declarations generated from it.
 type FnCtx struct {
+	frameStack []*Frame // frames being executed, innermost last
 	loopsExpected bool // the root contract has loop clauses but the root function has no loop
 	defineByEnsures bool // bounded search: bodyless spec fns with "result <==> E" evaluate as E
 	curLabel    string
